@@ -478,6 +478,15 @@ def run(ctx: Ctx) -> None:
                     guard = True
                 if isinstance(cur, ast.IfExp):
                     guard = True
+            if not guard and isinstance(it.node, ast.Attribute):
+                # the early-exit form (`if ctx is None: return None` before the read, possibly in an expanded helper): the read is unreachable when the receiver is None
+                from ..propdom import excluding_branches as _exb4
+                recv = unparse(it.node.value)
+                lcfg = cfg_of(load)
+                st4 = prog.enclosing_stmt(load.module, it.node)
+                av4 = _exb4(prog, load, lcfg, {f"{recv} is None": True})
+                if av4 and lcfg.find_path([lcfg.entry], lcfg.nodes_of(st4), avoid=av4) is None:
+                    guard = True
             ok = guard
             if not guard:
                 wit = [f"{load.loc(it.node)}: requested_paths is read without testing that an evaluation is running"]
